@@ -12,6 +12,7 @@ CONSTANTS
   Valences = {"neg", "pos"}
   Scores = {"none", "+10", "-5", "50%", "0.25"}
   Unscoreds = {FALSE, TRUE}
+  Msgs = {"text"}
   SuppU <- SuppScore
   MaxFb = 2
   MaxSupp = 1
